@@ -1,6 +1,7 @@
 (** * C02 - postconditions gate every normal return; results and exceptions pass unchanged.
-    Property theorems only (proofs: Proofs/CheckerFrame.v, Proofs/CheckerProps.v). *)
+    Property theorems only (proofs: Proofs/CheckerFrame.v, Proofs/CheckerProps.v, Proofs/CheckerAfter.v). *)
 From ICV Require Import Base Bind Checker CheckerSpec CheckerFrame CheckerProps.
+From ICV Require CheckerCase CheckerOracle CheckerAfter.
 Open Scope string_scope.
 Open Scope list_scope.
 
@@ -54,3 +55,20 @@ Example C02_nonvacuous :
   snd (run_M (checker_call Async (ex_U (BRet PNone)) ex_s [] [] [ex_c 1; ex_c 2] [] []) []) = inl PNone
   /\ snd (run_M (checker_call Sync (ex_U (BRaise 17)) ex_s [] [] [ex_c 1; ex_c 2] [] []) []) = inr (XObj 17).
 Proof. vm_compute. split; reflexivity. Qed.
+
+(** For every case - function, method, accessor, constructor, with or without invariants around it: a call that
+    returns normally has run its body, and what the caller receives is what the body returned (the instance for a
+    constructor call, nothing for an assignment or a deletion).  The first clause of the executable statement
+    [spec_C02] that the check evaluates on the implementation's observation, here for the model and all cases. *)
+Theorem C02_a_return_is_the_bodys (c : CheckerCase.ccase) w :
+  snd (CheckerCase.run_case c) = inl w ->
+  existsb is_body (fst (CheckerCase.run_case c)) = true
+  /\ exists v stb, u_body (CheckerCase.case_user c) (CheckerCase.k_args c) (CheckerCase.k_kwargs c) (CheckerCase.k_store c)
+                   = (BRet v, stb)
+                   /\ w = CheckerOracle.adjust c v.
+Proof. exact (CheckerAfter.return_is_the_bodys c w). Qed.
+Print Assumptions C02_a_return_is_the_bodys.
+
+(** non-vacuity: the method of [CheckerAfter.ex_after_case] returns *)
+Example C02_a_return_nonvacuous : snd (CheckerCase.run_case CheckerAfter.ex_after_case) = inl PNone.
+Proof. exact (proj1 CheckerAfter.after_nonvacuous). Qed.
